@@ -246,3 +246,17 @@ Definition rune_safe (its : list item) : bool :=
 
 (* domain of the byte-level model: a rune-safe pattern on any text, any pattern on ASCII text *)
 Definition rune_guard (its : list item) (T : str) : bool := rune_safe its || forallb is_ascii T.
+
+(* the offsets at which Go's decoding loop (utf8.DecodeRuneInString step by step from offset 0, an invalid byte
+   being one step) starts a rune: the rune boundaries of an ARBITRARY byte string *)
+Inductive Boundary (T : str) : nat -> Prop :=
+| B_zero : Boundary T 0
+| B_step p : Boundary T p -> p < length T -> Boundary T (p + snd (decode_rune (skipn p T))).
+
+Fixpoint only_marks (r : list item) : bool :=
+  match r with
+  | [] => true
+  | IOpen _ :: r' => only_marks r'
+  | IClose _ :: r' => only_marks r'
+  | _ => false
+  end.
